@@ -6,3 +6,4 @@ import BalmProofs.Props.C15
 #print axioms Balm.Props.C04.expandDfs_inv
 #print axioms Balm.Props.C04.expandToTarget_inv
 #print axioms Balm.Props.C04.expandMinimal_inv
+#print axioms Balm.Impl.judgeStrict_sound
